@@ -1,6 +1,6 @@
 From Coq Require Import List NArith ZArith Bool.
 From LTV.C15 Require Import ParamsGen.
-From LTV.C15 Require Import Model Proofs ProofsMid ProofsTableA ProofsTableB ProofsTableC ProofsTokens ProofsCounters ProofsReply ProofsOwn ProofsPositive.
+From LTV.C15 Require Import Model Proofs ProofsMid ProofsTableA ProofsTableB ProofsTableC ProofsTokens ProofsCounters ProofsReply ProofsOwn ProofsPositive ProofsTx.
 Import ListNotations.
 Local Open Scope N_scope.
 
@@ -267,3 +267,57 @@ Theorem cache_rebuild_stores_reply : forall t id b, find_bucket id (tb t) = Some
              bcache b' = snd (closest_nodes t id) /\ bnodes b' = bnodes b.
 Proof. exact closest_rebuild_stores. Qed.
 Print Assumptions cache_rebuild_stores_reply.
+
+(* ------------------------------------------------------------------ transactions (y = "r" / "e" datagrams)
+   Scope: ping transactions (node_queried of an unknown, wanted node); [tracked] = the server has not
+   started a DhtSearch yet.  DhtSearch / DhtAnnounce state machines are not modelled. *)
+
+Theorem unsolicited_reply_ignored : forall sha ss ip t idb tid id, tracked ss -> reply_ok ss t idb tid id ->
+  find_tx ip tid (txs ss) = None ->
+  snd (sstep sha ss (SReply ip t idb)) = Rdg RpNone /\
+  rs (fst (sstep sha ss (SReply ip t idb))) = rs ss /\
+  map (fun x => (x_ip x, x_tid x, x_id x)) (txs (fst (sstep sha ss (SReply ip t idb)))) = map (fun x => (x_ip x, x_tid x, x_id x)) (txs ss) /\
+  netup (fst (sstep sha ss (SReply ip t idb))) = netup ss.
+Proof. exact ProofsTx.unsolicited_reply_ignored. Qed.
+Print Assumptions unsolicited_reply_ignored.
+
+Theorem wrong_id_reply_ignored : forall sha ss ip t idb tid id x, tracked ss -> reply_ok ss t idb tid id ->
+  find_tx ip tid (txs ss) = Some x -> id <> x_id x -> x_id x <> 0 ->
+  snd (sstep sha ss (SReply ip t idb)) = Rdg RpNone /\
+  rs (fst (sstep sha ss (SReply ip t idb))) = rs ss /\
+  map (fun x => (x_ip x, x_tid x, x_id x)) (txs (fst (sstep sha ss (SReply ip t idb)))) = map (fun x => (x_ip x, x_tid x, x_id x)) (txs ss).
+Proof. exact ProofsTx.wrong_id_reply_ignored. Qed.
+Print Assumptions wrong_id_reply_ignored.
+
+Theorem matched_reply_updates_table : forall sha ss ip t idb tid id x, tracked ss -> reply_ok ss t idb tid id ->
+  find_tx ip tid (txs ss) = Some x -> (id = x_id x \/ x_id x = 0) ->
+  snd (sstep sha ss (SReply ip t idb)) = Rdg RpNone /\
+  rs (fst (sstep sha ss (SReply ip t idb))) = fst (step sha (rs ss) (OReplied id ip 0)) /\
+  find_tx ip tid (txs (fst (sstep sha ss (SReply ip t idb)))) = None /\
+  netup (fst (sstep sha ss (SReply ip t idb))) = true.
+Proof. exact ProofsTx.matched_reply_updates_table. Qed.
+Print Assumptions matched_reply_updates_table.
+
+Theorem error_clears_transaction : forall sha ss ip tid, tracked ss ->
+  snd (sstep sha ss (SError ip (Some [tid]))) = Rdg RpNone /\
+  rs (fst (sstep sha ss (SError ip (Some [tid])))) = rs ss /\
+  find_tx ip tid (txs (fst (sstep sha ss (SError ip (Some [tid]))))) = None.
+Proof. exact ProofsTx.error_clears_transaction. Qed.
+Print Assumptions error_clears_transaction.
+
+Theorem timeout_blames_only_sent_known_nodes : forall sha ss x,
+  rs (expire sha ss x) =
+  (if netup ss && x_sent x && negb (x_id x =? 0) then fst (step sha (rs ss) (OInactive (x_id x) (x_ip x) 0)) else rs ss) /\
+  find_tx (x_ip x) (x_tid x) (txs (expire sha ss x)) = None.
+Proof. exact ProofsTx.timeout_blame. Qed.
+Print Assumptions timeout_blames_only_sent_known_nodes.
+
+Theorem one_ping_per_address : forall sha ownid c p t0 fl ops, one_per_ip (srun sha (sinit ownid c p t0 fl) ops).
+Proof. exact ProofsTx.one_ping_per_address. Qed.
+Print Assumptions one_ping_per_address.
+
+Theorem table_inv_with_transactions : forall sha ownid c p t0 fl ops,
+  let s := rs (srun sha (sinit ownid c p t0 fl) ops) in
+  contiguous 0 (tb (tab s)) /\ Forall bucket_ok (tb (tab s)).
+Proof. exact ProofsTx.table_inv_with_transactions. Qed.
+Print Assumptions table_inv_with_transactions.
